@@ -384,14 +384,23 @@ fn check_api_views(r: &mut Runner, inst: usize) {
                 }
             }
             // The status view survives a restart as well.
-            let sa = serde_json::to_string(
-                &rt.ca_manager().get_ca_status(&handle).ok()
+            // Compared as values: the maps in it have no order.
+            let mut sa = serde_json::to_value(
+                rt.ca_manager().get_ca_status(&handle).ok()
             ).unwrap_or_default();
-            let sb = serde_json::to_string(
-                &fresh.get_ca_status(&handle).ok()
+            let mut sb = serde_json::to_value(
+                fresh.get_ca_status(&handle).ok()
             ).unwrap_or_default();
+            sort_arrays(&mut sa);
+            sort_arrays(&mut sb);
             if sa != sb {
-                problems.push(format!("C19:status view of {handle} differs"));
+                let diff = first_difference(&sa, &sb, "")
+                    .unwrap_or_default();
+                let diff: String = diff.chars().take(400).collect();
+                problems.push(format!(
+                    "C19:status view of {handle} differs between the live \
+                     daemon and a reload from the same storage: {diff}"
+                ));
             }
         }
         Ok::<_, String>(problems)
